@@ -72,6 +72,16 @@ func (vc *FuncVC) val(st *State, fr *Frame, v ssa.Value) any {
 				return V{name, SInt, x.Type()}
 			}
 		}
+		if x.Pkg != nil && x.Pkg.Pkg == vc.eng.pkg.Types {
+			// a package-level variable of the package itself: shared mutable state outside every contract. Its
+			// cell lies outside the frames (a write to it is no framework effect) and every read of it returns
+			// an unconstrained value (other goroutines, earlier runs), so no proof can lean on its content.
+			name := "gvar_" + mangle(x.Name())
+			vc.w.declare(name, fmt.Sprintf("(declare-const %s Int)\n(assert (= %s (- %d)))", name, name, 1000+vc.eng.globalIndex(x.Name())))
+			st.assume(not(sel(vc.heapInit("alive", aliveSort), name)))
+			vc.trusted["package-level variables of the package are unconstrained on every read and outside all frames"] = true
+			return V{name, SInt, x.Type()}
+		}
 		vc.unsupportedf("global variable %s", x.Name())
 		panic(abortPath{"global"})
 	}
@@ -854,6 +864,10 @@ func (vc *FuncVC) typeAssert(st *State, fr *Frame, in *ssa.TypeAssert) any {
 		so := w.sortOf(in.AssertedType)
 		u := vc.unboxTerm(so, app("pay", x.T))
 		val = V{ite(ok, u, w.zero(so)), so, in.AssertedType}
+		if bt := vc.boxTerm(so, u); bt != "(bOpaque 0)" && u != w.zero(so) {
+			// a value of dynamic type T carries a T payload: re-boxing what was extracted gives the value back
+			st.assume(implies(ok, eq(app("pay", x.T), bt)))
+		}
 		if so == SInt {
 			// well-typedness of interface payloads coming from the environment
 			switch in.AssertedType.Underlying().(type) {
